@@ -1,0 +1,132 @@
+//go:build verif
+
+// Contracts of this package for the deductive verifier in /verif (vcgo).
+// Comment-only plus ghost lemma drivers; compiled only with -tags verif.
+
+package gossip
+
+// ---------------------------------------------------------------------------
+// Failure detector (C12)
+
+// sumTo(d, o, n): the sum of the first n elements of the view of d at offset o.
+//@ uninterp sumTo(d arr[int64], o int, n int) int
+//@ axiom sumTo0: forall d arr[int64], o int {sumTo(d, o, 0)} :: sumTo(d, o, 0) == 0
+//@ axiom sumToS: forall d arr[int64], o int, n int {sumTo(d, o, n)} :: n > 0 ==> sumTo(d, o, n) == sumTo(d, o, n-1) + at(d, o, n-1)
+
+// Writing at or beyond position n of the view does not change the sum of the first n.
+//@ lemma sumFrame(d arr[int64], o int, p int, v int64, n int)
+//@   serves C12
+//@   opt induction n
+//@   opt export true
+//@   opt trigger sumTo(store(d, p, v), o, n)
+//@   requires[above] 0 <= n && o + n <= p
+//@   ensures[same] sumTo(store(d, p, v), o, n) == sumTo(d, o, n)
+
+// Overwriting a position inside the first n replaces that element's contribution.
+//@ lemma sumUpdate(d arr[int64], o int, p int, v int64, n int)
+//@   serves C12
+//@   opt induction n
+//@   opt export true
+//@   opt trigger sumTo(store(d, p, v), o, n)
+//@   requires[inside] o <= p && p < o + n
+//@   ensures[replaced] sumTo(store(d, p, v), o, n) == sumTo(d, o, n) - sel(d, p) + v
+
+// allPos(d, o, n): the first n elements of the view are all at least 1.
+//@ uninterp allPos(d arr[int64], o int, n int) bool
+//@ axiom allPosDef: forall d arr[int64], o int, n int {allPos(d, o, n)} :: allPos(d, o, n) <==> (forall j int {at(d, o, j)} :: 0 <= j && j < n ==> at(d, o, j) >= 1)
+
+// Positive samples give a sum of at least their number.
+//@ lemma sumLower(d arr[int64], o int, n int)
+//@   serves C12
+//@   opt induction n
+//@   opt export true
+//@   opt trigger sumTo(d, o, n)
+//@   requires[positive] 0 <= n && allPos(d, o, n)
+//@   ensures[lower] sumTo(d, o, n) >= n
+
+//@ pure aiSize(i *arrivalIntervals) int = i.isFull ? len(i.intervals) : i.index
+//@ pure aiData(i *arrivalIntervals) arr[int64] = contents(i.intervals)
+
+// The circular buffer: the cursor is in range, sum is the exact sum of the
+// stored samples, every stored sample is positive.
+//@ pure aiInv(i *arrivalIntervals) bool = len(i.intervals) >= 1 && 0 <= i.index && i.index <= len(i.intervals)
+//@    && arr(i.intervals) > 0
+//@    && i.sum == sumTo(aiData(i), off(i.intervals), aiSize(i))
+//@    && allPos(aiData(i), off(i.intervals), aiSize(i))
+//@    && (aiSize(i) >= 1 ==> i.mean == i2f(i.sum) / i2f(aiSize(i)))
+
+// The slot the next sample is written to.
+//@ pure aiSlot(i *arrivalIntervals) int = (i.index == len(i.intervals)) ? 0 : i.index
+
+//@ contract (*arrivalIntervals).Add
+//@   serves C12
+//@   requires[inv] aiInv(i)
+//@   requires[positive] interval >= 1
+//@   modifies i.index, i.isFull, i.sum, i.mean, elems(i.intervals)
+//@   ensures[inv] aiInv(i)
+//@   ensures[stored] at(aiData(i), off(i.intervals), old(aiSlot(i))) == interval
+//@   ensures[others] forall j int :: 0 <= j && j < len(i.intervals) && j != old(aiSlot(i)) ==> at(aiData(i), off(i.intervals), j) == old(at(aiData(i), off(i.intervals), j))
+//@   ensures[cursor] i.index == old(aiSlot(i)) + 1 && i.isFull == (old(i.isFull) || old(i.index) == len(i.intervals))
+//@   ensures[window] aiSize(i) == (old(aiSize(i)) < len(i.intervals) ? old(aiSize(i)) + 1 : len(i.intervals))
+//@   ensures[sum] i.sum == old(i.sum) + interval - ((old(i.isFull) || old(i.index) == len(i.intervals)) ? old(at(aiData(i), off(i.intervals), aiSlot(i))) : 0)
+//@   ensures[mean] i.mean == i2f(i.sum) / i2f(aiSize(i))
+//@   ensures[nonempty] aiSize(i) >= 1 && sumTo(aiData(i), off(i.intervals), aiSize(i)) >= 1
+//@   ensures[buffer-kept] i.intervals == old(i.intervals)
+
+//@ contract newArrivalIntervals
+//@   serves C12
+//@   requires[size] sampleSize >= 1
+//@   ensures[fresh] result != nil && fresh(result) && fresh(result.intervals)
+//@   ensures[inv] aiInv(result)
+//@   ensures[empty] result.index == 0 && !result.isFull && len(result.intervals) == sampleSize
+//@   opt frame true
+
+// IEEE-754 facts, proved bit-exactly over all 64-bit inputs in 'mode bv' and
+// restated for the mathematical-integer mode (where int->float conversion is
+// an uninterpreted function).
+//@ lemma meanPositiveBV(s int64, n int64)
+//@   serves C12
+//@   mode bv
+//@   requires[range] 1 <= s && 1 <= n && n <= 2147483647
+//@   ensures[positive] i2f(s) / i2f(n) > 0.0
+//@   ensures[finite] !isNaN(i2f(s) / i2f(n)) && !isInf(i2f(s) / i2f(n))
+//@ lemma phiZeroBV(m float64)
+//@   serves C12
+//@   mode bv
+//@   requires[mean] m > 0.0
+//@   ensures[zero] i2f(0) / m == 0.0
+//@ lemma phiNonNegBV(d int64, m float64)
+//@   serves C12
+//@   mode bv
+//@   requires[mean] m > 0.0 && 0 <= d
+//@   ensures[nonneg] i2f(d) / m >= 0.0
+// (stated without the upper bound on s: the mathematical-integer mode assumes
+// that int64 arithmetic does not overflow, so sums stay in the range for which
+// meanPositiveBV proves the fact)
+//@ axiom meanPositive: forall s int, n int {i2f(s), i2f(n)} :: 1 <= s && 1 <= n && n <= 2147483647 ==> i2f(s) / i2f(n) > 0.0
+
+//@ immutable arrivalWindow.intervals arrivalWindow.bootstrapInterval accrualFailureDetector.bootstrapInterval accrualFailureDetector.sampleSize
+
+// A window is usable once it has its first sample; the bootstrap interval is positive.
+//@ pure awInv(w *arrivalWindow) bool = w.intervals != nil && allocated(w.intervals) && aiInv(w.intervals) && w.bootstrapInterval >= 1
+//@    && len(w.intervals.intervals) <= 2147483647
+//@    && (!w.lastTimestamp.IsZero() ==> aiSize(w.intervals) >= 1)
+
+//@ contract (*arrivalWindow).Add
+//@   serves C12
+//@   requires[inv] awInv(w)
+//@   requires[increasing] timestamp.After(w.lastTimestamp) && !timestamp.IsZero()
+//@   modifies w.lastTimestamp, w.intervals.index, w.intervals.isFull, w.intervals.sum, w.intervals.mean, elems(w.intervals.intervals)
+//@   ensures[inv] awInv(w)
+//@   ensures[last] w.lastTimestamp == timestamp
+//@   ensures[sample] at(aiData(w.intervals), off(w.intervals.intervals), old(aiSlot(w.intervals))) == (old(w.lastTimestamp.IsZero()) ? w.bootstrapInterval : timestamp.Sub(old(w.lastTimestamp)))
+//@   ensures[others] forall j int :: 0 <= j && j < len(w.intervals.intervals) && j != old(aiSlot(w.intervals)) ==> at(aiData(w.intervals), off(w.intervals.intervals), j) == old(at(aiData(w.intervals), off(w.intervals.intervals), j))
+//@   ensures[window] aiSize(w.intervals) == (old(aiSize(w.intervals)) < len(w.intervals.intervals) ? old(aiSize(w.intervals)) + 1 : len(w.intervals.intervals))
+
+//@ contract (*arrivalWindow).Phi
+//@   serves C12
+//@   opt ranges true
+//@   requires[inv] awInv(w)
+//@   requires[sampled] !w.lastTimestamp.IsZero()
+//@   ensures[ratio] result == i2f(timestamp.Sub(w.lastTimestamp)) / w.intervals.mean
+//@   ensures[mean] w.intervals.mean == i2f(w.intervals.sum) / i2f(aiSize(w.intervals)) && w.intervals.sum == sumTo(aiData(w.intervals), off(w.intervals.intervals), aiSize(w.intervals))
